@@ -195,7 +195,7 @@ def run_check(pid, tier, seed, workers=None, only=None, extra_env=None, quiet=Fa
         "verdict": "violated" if real else ("inconclusive" if reasons else "held"),
         "inconclusive_reasons": reasons,
     }
-    if only is None:
+    if only is None and not os.environ.get("SYMV_NO_EVIDENCE"):
         os.makedirs(os.path.join(VERIF, "evidence"), exist_ok=True)
         json.dump(evidence, open(os.path.join(VERIF, "evidence", f"{pid}.json"), "w"), indent=1, default=repr)
     # ---- output
